@@ -1,6 +1,7 @@
 #!/bin/bash
 # usage: benign_par.sh <set> [checks...] — test the behaviour-preserving patches of /verif/benign/<set> in parallel, each in its own scratch
 # worktree of /repo (MZSA_REPO), against the given checks (default: all 19).  /repo itself is not touched.
+# BENIGN_SMART=1: run, per patch, only the checks whose rules analyse the files the patch touches (about half of the 19), for quick re-runs.
 set -u
 # MZSA_ROOT: run the checks of a snapshot copy of /verif (so that the checker can be edited while a round is running)
 ROOT=${MZSA_ROOT:-/verif}
@@ -15,11 +16,22 @@ for pf in /verif/benign/$B/patch*.diff; do
     git -C /repo worktree add --detach $WT HEAD >/dev/null 2>&1 || { echo "$B/$k: cannot create worktree"; exit; }
     git -C $WT apply $pf || { echo "$B/$k: patch does not apply"; git -C /repo worktree remove --force $WT; exit; }
     E=$(mktemp -d /tmp/mzsa-evid.XXXXXX); T=$(mktemp -d)
-    for p in $CHECKS; do
+    CHECKS_P="$CHECKS"
+    if [ -n "${BENIGN_SMART:-}" ]; then
+      # only the checks whose rules analyse the files this patch touches (C20 always: it is the build itself)
+      CHECKS_P="C20"
+      grep -q "^+++ b/miniz_oxide/src/inflate/\(core\|output_buffer\|mod\)" $pf && CHECKS_P="$CHECKS_P C03 C04 C05 C06 C07 C08 C09 C13 C16 C18 C19"
+      grep -q "^+++ b/miniz_oxide/src/inflate/stream" $pf && CHECKS_P="$CHECKS_P C05 C06 C07 C08 C13 C16 C17 C18 C19"
+      grep -q "^+++ b/miniz_oxide/src/deflate/" $pf && CHECKS_P="$CHECKS_P C01 C02 C09 C10 C11 C12 C14 C16 C17 C18"
+      grep -q "^+++ b/miniz_oxide/src/shared" $pf && CHECKS_P="$CHECKS_P C09 C16"
+      grep -q "^+++ b/src/" $pf && CHECKS_P="$CHECKS_P C13 C14 C16 C17 C18"
+      CHECKS_P=$(echo $CHECKS_P | tr ' ' '\n' | sort -u | tr '\n' ' ')
+    fi
+    for p in $CHECKS_P; do
       ( MZSA_REPO=$WT MZSA_EVIDENCE_DIR=$E $ROOT/check $p --tier quick > $T/$p.log 2>&1; echo $? > $T/$p.rc ) &
     done; wait
     alarms=""
-    for p in $CHECKS; do
+    for p in $CHECKS_P; do
       rc=$(cat $T/$p.rc); [ "$rc" = "0" ] || { alarms="$alarms $p(rc=$rc:$(grep '^  rule' $T/$p.log | awk '{print $2}' | sort -u | tr '\n' ','))"; cp $T/$p.log /tmp/bp-$B-$k-$p.log; }
     done
     if [ -z "$alarms" ]; then echo "$B/$k: silent";
